@@ -112,6 +112,10 @@ def install(eng):
     @reg(hash)
     def m_hash(eng, st, args, kw):
         v = args[0]
+        if isinstance(v, SV) and v.hint is tuple:
+            # hash of a tuple: a function of its items (uninterpreted)
+            yield st, SV(V.mk_int(ops.opq("H_tuple", V.ValSeq, z3.IntSort())(V.seq_of(V.Val.a(v.t)))))
+            return
         if isinstance(v, SV) and v.hint is not None:
             m = eng.lookup_method(v.hint, "__hash__")
             if m is not None:
@@ -201,8 +205,17 @@ def install(eng):
         if not args:
             yield st, ()
             return
-        for st1, items in eng.iter_concrete(args[0], st):
-            yield st1, (items if isinstance(items, Raise) else tuple(items))
+        try:
+            for st1, items in eng.iter_concrete(args[0], st):
+                yield st1, (items if isinstance(items, Raise) else tuple(items))
+        except Unsupported:
+            # tuple(<sequence of symbolic length>): a tuple value with the same items
+            from . import lib as _lib
+
+            seq = _lib.seq_content(eng, args[0], st)
+            sv = eng.alloc(st, tuple)
+            st.assume(V.seq_of(V.Val.a(sv.t)) == seq)
+            yield st, sv
 
     @reg(getattr)
     def m_getattr(eng, st, args, kw):
